@@ -7,6 +7,10 @@
 //  part 2  sequential two-thread isolation check (threads run to completion one after the other: deterministic).
 //  part 3  DEEP stacks (up to 65 / 128 frames) with a shaped enumeration: attach N, unwind along several plans (newest
 //          first, one token out of order, pop to a depth / re-grow / unwind), model compared after every single step.
+//  part 4  the stack alphabet of part 1 restricted to the special frames: a Scope over a null span, a Scope made by
+//          Tracer::WithActiveSpan, a context whose active-span key holds a value that is not a span.
+//  part 5  a custom RuntimeContextStorage installed with SetRuntimeContextStorage: RuntimeContext, Token, Scope and
+//          GetCurrentSpan must act through it (and only through it); its own discipline is deliberately not a stack.
 #include <algorithm>
 #include <map>
 #include <unistd.h>
@@ -266,6 +270,7 @@ struct Ident {
   int64_t k = 0;        // expected value of key "k" (0: unbound)
   const trace::Span *span = nullptr;  // expected active span (nullptr: none)
   nostd::shared_ptr<trace::Span> span_owner;
+  bool null_span = false;  // a Scope over a null span pointer made this frame: what GetCurrentSpan() answers while it is on top is don't-care
 };
 
 context::ThreadLocalContextStorage::Stack &real_stack() {
@@ -281,7 +286,8 @@ void reset_real_stack() {
 }
 
 struct StackWorld {
-  std::vector<Ident> ids;  // 0 E, 1 A, 2 B, 3 F, then one per Scope
+  static constexpr int kFixed = 5;
+  std::vector<Ident> ids;  // 0 E, 1 A, 2 B, 3 F, 4 X, then one per Scope
   std::vector<int> model;  // the model stack: identity indices, bottom first
   struct Tok { nostd::unique_ptr<context::Token> tok; int id; };
   struct Scp { std::unique_ptr<trace::Scope> scope; int id; };
@@ -290,12 +296,14 @@ struct StackWorld {
   int nspans = 0;
 
   StackWorld() {
-    ids.resize(4);
+    ids.resize(kFixed);
     ids[0].name = "E";
     ids[1].name = "A"; ids[1].ctx = Context("k", ContextValue(int64_t(1))); ids[1].k = 1;
     ids[2].name = "B"; ids[2].span_owner = make_span(100); ids[2].ctx = ids[1].ctx.SetValue(trace::kSpanKey, ids[2].span_owner).SetValue("k", ContextValue(int64_t(2)));
     ids[2].k = 2; ids[2].span = ids[2].span_owner.get();
     ids[3].name = "F"; ids[3].ctx = Context("k", ContextValue(int64_t(3))); ids[3].k = 3;
+    // X: derived from B (which has an active span); the active-span key is re-bound to a value that is NOT a span: no span is active in X
+    ids[4].name = "X"; ids[4].ctx = ids[2].ctx.SetValue(trace::kSpanKey, ContextValue(int64_t(99))).SetValue("k", ContextValue(int64_t(4))); ids[4].k = 4;
   }
   // identity = what the code compares: the list head (all empty contexts are one identity)
   bool same_identity(int a, int b) const { return ids[a].ctx == ids[b].ctx; }
@@ -312,7 +320,7 @@ struct StackWorld {
   }
   std::string frame_label(int id, size_t pos) const {
     const Ident &x = ids[id];
-    return x.name + (x.name == "S" ? vf::sfmt("@%zu", pos) : "") + vf::sfmt("k%lld%s", (long long)x.k, x.span ? "s" : "");
+    return x.name + (x.name == "S" ? vf::sfmt("@%zu", pos) : "") + vf::sfmt("k%lld%s", (long long)x.k, x.span ? "s" : x.null_span ? "n" : "");
   }
   // canonical state from the REAL stack object (size, capacity, frames) plus the live tokens / scopes
   std::string canon() const {
@@ -357,7 +365,24 @@ void check_current(vf::Ctx &c, StackWorld &w, const std::string &hist) {
   c.check(same(kv, mk), "C10:getcurrent-values", vf::sfmt("after%s: the current context answers GetValue('k') = %s, expected %s", hist.c_str(), show(kv).c_str(), show(mk).c_str()));
   ContextValue rv = RuntimeContext::GetValue("k");
   c.check(same(rv, mk), "C10:runtimecontext-getvalue-current", vf::sfmt("after%s: RuntimeContext::GetValue('k') = %s, expected %s", hist.c_str(), show(rv).c_str(), show(mk).c_str()));
+  // RuntimeContext::SetValue(key, value) WITHOUT a context argument derives from the current context and leaves it current
+  {
+    Context derived = RuntimeContext::SetValue("k2", ContextValue(int64_t(7)));
+    MV m7; m7.index = 2; m7.i = 7;
+    ContextValue d2 = derived.GetValue("k2"), dk = derived.GetValue("k");
+    c.check(same(d2, m7), "C10:runtimecontext-setvalue-current:new-binding", vf::sfmt("after%s: RuntimeContext::SetValue('k2',7) returned a context in which GetValue('k2') = %s", hist.c_str(), show(d2).c_str()));
+    c.check(same(dk, mk), "C10:runtimecontext-setvalue-current:not-derived-from-current",
+            vf::sfmt("after%s: the context returned by RuntimeContext::SetValue('k2',7) answers GetValue('k') = %s, the current context (top frame of %s) has %s", hist.c_str(), show(dk).c_str(), w.model_str().c_str(), show(mk).c_str()));
+    ContextValue ds = derived.GetValue(trace::kSpanKey), cs = cur.GetValue(trace::kSpanKey);
+    bool same_span = ds.index() == cs.index() && (ds.index() != 5 || nostd::get<nostd::shared_ptr<trace::Span>>(ds).get() == nostd::get<nostd::shared_ptr<trace::Span>>(cs).get());
+    c.check(same_span, "C10:runtimecontext-setvalue-current:not-derived-from-current", vf::sfmt("after%s: the context returned by RuntimeContext::SetValue('k2',7) does not carry the active span of the current context", hist.c_str()));
+    c.check(RuntimeContext::GetCurrent() == cur && !cur.HasKey("k2"), "C10:runtimecontext-setvalue-current:changed-current", vf::sfmt("after%s: RuntimeContext::SetValue('k2',7) changed the current context", hist.c_str()));
+  }
   nostd::shared_ptr<trace::Span> sp = trace::Tracer::GetCurrentSpan();
+  if (want.null_span) {  // a Scope over a null span is on top: the statement says nothing about GetCurrentSpan() here (it must not crash)
+    c.counted(sp ? "dontcare_current_span_over_null_scope_nonnull" : "dontcare_current_span_over_null_scope_null");
+    return;
+  }
   c.check(bool(sp), "C10:getcurrentspan-null", "GetCurrentSpan() returned a null pointer");
   if (want.span)
     c.check(sp.get() == want.span, "C10:getcurrentspan", vf::sfmt("after%s: GetCurrentSpan() is not the span of the top frame %s (valid=%d)", hist.c_str(), w.model_str().c_str(), int(sp->GetContext().IsValid())));
@@ -391,7 +416,7 @@ void run_stack(vf::Ctx &c) {
       // alphabet, simplest first.  Tokens with the same context are interchangeable (a Token holds nothing but its
       // const Context), so Detach / ~Token choose an identity among the live tokens, not a token index.
       std::vector<int> tid;  // distinct identities among the live tokens, in E A B F order
-      for (int id = 0; id < 4; ++id)
+      for (int id = 0; id < StackWorld::kFixed; ++id)
         for (auto &t : w.toks) if (t.id == id) { tid.push_back(id); break; }
       int nt = (int)tid.size(), ns = (int)w.scopes.size();
       int n = 3 + 1 + 1 + nt + nt + ns;
@@ -477,34 +502,54 @@ void run_threads(vf::Ctx &c) {
   int other_frames = 1 + 3 * c.pick("other-frames", 3); // 1, 4, 7: crosses the reallocations of the other thread's stack
   bool leave_attached = c.flip("leave-attached");       // the first thread ends with frames still attached
   if (main_frames == 2) main_frames = 3;
+  // the main thread hands its NEWEST token to the second thread, which destroys it there: a token whose context is not on
+  // that thread's stack changes nothing there, and the main thread's frames are the main thread's (nothing is popped)
+  bool foreign_death = main_frames > 0 && c.flip("token-dies-on-other-thread");
   c.stage("threads");
   Context a("k", ContextValue(int64_t(1))), b("k", ContextValue(int64_t(2)));
   std::vector<nostd::unique_ptr<context::Token>> mine;
   for (int i = 0; i < main_frames; ++i) mine.push_back(RuntimeContext::Attach(a));
   struct Seen { bool start_empty = false, own_top = false, end_ok = false; } s1, s2;
+  nostd::unique_ptr<context::Token> handed;
+  bool foreign_death_ok = true;
   auto body = [&](Seen *s, bool leak) {
     s->start_empty = RuntimeContext::GetCurrent() == Context();
     std::vector<nostd::unique_ptr<context::Token>> ts;
     for (int i = 0; i < other_frames; ++i) ts.push_back(RuntimeContext::Attach(b));
     s->own_top = RuntimeContext::GetCurrent() == b;
+    if (handed) {
+      handed.reset();  // ~Token of a context attached by the main thread, executed on this thread
+      foreign_death_ok = RuntimeContext::GetCurrent() == b;
+      for (int i = 0; i < other_frames && foreign_death_ok; ++i) {  // none of this thread's frames went away: each of its tokens still pops exactly one
+        ts.pop_back();
+        foreign_death_ok = RuntimeContext::GetCurrent() == (i + 1 < other_frames ? b : Context());
+      }
+      for (int i = (int)ts.size(); i < other_frames; ++i) ts.push_back(RuntimeContext::Attach(b));
+    }
     if (leak) { for (auto &t : ts) t.release(); s->end_ok = RuntimeContext::GetCurrent() == b; }
     else { ts.clear(); s->end_ok = RuntimeContext::GetCurrent() == Context(); }
   };
   std::thread t1(body, &s1, leave_attached);
   t1.join();
   bool main_after_1 = RuntimeContext::GetCurrent() == (main_frames ? a : Context());
+  if (foreign_death) { handed = std::move(mine.back()); mine.pop_back(); }
   std::thread t2(body, &s2, false);
   t2.join();
   bool main_after_2 = RuntimeContext::GetCurrent() == (main_frames ? a : Context());
+  size_t main_real_frames = real_stack().size_;
   c.step(4);
   c.check(s1.start_empty, "C10:thread-sees-foreign-frames", "a new thread's current context is not empty although only the main thread attached contexts");
   c.check(s1.own_top && s1.end_ok, "C10:thread-own-stack", "a thread does not see its own attached context");
   c.check(main_after_1, "C10:thread-changed-other-stack", "the main thread's current context changed while another thread attached / detached contexts");
   c.check(s2.start_empty, "C10:thread-sees-foreign-frames", "a second thread sees frames that the first thread left attached (or the main thread's)");
   c.check(s2.own_top && s2.end_ok && main_after_2, "C10:thread-own-stack", "second thread / main thread current context wrong");
+  c.check(foreign_death_ok, "C10:thread-foreign-token-death", "a token of the main thread that was destroyed on a second thread changed the second thread's stack");
+  c.check(main_real_frames == (size_t)main_frames, "C10:thread-changed-other-stack", vf::sfmt("the main thread's stack has %zu frames after the other threads ran, it attached %d", main_real_frames, main_frames));
   mine.clear();
-  c.check(RuntimeContext::GetCurrent() == Context(), "C10:getcurrent", "main thread: frames remain after all tokens died");
-  std::string o = vf::sfmt("thr|%d|%d|%d", main_frames, other_frames, int(leave_attached));
+  // with the handed-over token destroyed elsewhere (no effect there, none here) one frame of the main thread has no token left
+  c.check(RuntimeContext::GetCurrent() == (foreign_death ? a : Context()) && real_stack().size_ == (foreign_death ? 1u : 0u), "C10:getcurrent",
+          foreign_death ? "main thread: after one of its tokens died on another thread and the others here, not exactly the one token-less frame remains" : "main thread: frames remain after all tokens died");
+  std::string o = vf::sfmt("thr|%d|%d|%d|%d", main_frames, other_frames, int(leave_attached), int(foreign_death));
   c.state(o);
   c.outcome(o);
   c.sample(vf::sfmt("threads: main holds %d frames, two threads attach %d frames one after the other (%s): each sees only its own stack", main_frames, other_frames,
@@ -676,6 +721,281 @@ void run_deep(vf::Ctx &c) {
   if (N >= 7) c.sample("runtime stack," + prefix + vf::sfmt(": current context / span / Detach results equal the model after every attach and detach (capacity reached %zu)", max_capacity));
 }
 
+// ==================================================================================================
+// part 4: special frames (null-span Scope, Tracer::WithActiveSpan, non-span value under the active-span key)
+// ==================================================================================================
+// Same world, model and oracle as part 1 over a reduced alphabet, so that the extra frames do not multiply the
+// depth-6/9 exploration of part 1: Attach(A), Attach(X) [active-span key bound to an int64], Scope(span) made by
+// Tracer::WithActiveSpan, Scope(null span pointer), Scope(span) constructed directly; destruction of any live token
+// (by identity, newest first) and of any live scope (out of order included).
+void run_special(vf::Ctx &c) {
+  const int depth = atoi(c.opt().get("special-depth", c.thorough() ? "7" : "5").c_str());
+  reset_real_stack();
+  std::string hist;
+  {
+    StackWorld w;
+    check_current(c, w, " start");
+    for (int d = 0; d < depth; ++d) {
+      {
+        vf::H128 h; h.add(0xc14); h.add((uint64_t)(depth - d)); h.add_str(w.canon());
+        c.prune_point(h);  // complete for the same reason as in part 1 (the frame label names null-span scopes)
+      }
+      std::vector<int> tid;
+      for (int id = 0; id < StackWorld::kFixed; ++id)
+        for (auto &t : w.toks) if (t.id == id) { tid.push_back(id); break; }
+      int nt = (int)tid.size(), ns = (int)w.scopes.size();
+      int op = c.pick("op", 5 + nt + ns);
+      c.step();
+      if (op < 2) {  // Attach(A) / Attach(X)
+        c.stage("Attach");
+        int id = op == 0 ? 1 : 4;
+        nostd::unique_ptr<context::Token> t = RuntimeContext::Attach(w.ids[id].ctx);
+        c.check(bool(t) && *t == w.ids[id].ctx, "C10:token-context", "Attach returned a null token or one that does not compare equal to the attached context");
+        w.model.push_back(id);
+        w.toks.push_back({std::move(t), id});
+        hist += " Attach(" + w.ids[id].name + ")";
+      } else if (op < 5) {  // Scope over a span via WithActiveSpan / over a null span pointer / constructed directly
+        int parent = w.top();
+        Ident s;
+        s.name = "S";
+        s.k = w.ids[parent].k;
+        std::unique_ptr<trace::Scope> sc;
+        if (op == 3) {
+          c.stage("Scope(null)");
+          s.null_span = true;
+          nostd::shared_ptr<trace::Span> none;
+          sc.reset(new trace::Scope(none));
+          hist += " Scope+(null)";
+        } else {
+          s.span_owner = make_span(w.nspans++);
+          s.span = s.span_owner.get();
+          if (op == 2) {
+            c.stage("WithActiveSpan");
+            sc.reset(new trace::Scope(trace::Tracer::WithActiveSpan(s.span_owner)));
+            hist += " WithActiveSpan+";
+          } else {
+            c.stage("Scope");
+            sc.reset(new trace::Scope(s.span_owner));
+            hist += " Scope+";
+          }
+        }
+        s.ctx = sc->token_->context_;
+        c.check(w.identity_of(s.ctx) < 0, "C10:scope-context-not-fresh", "the context attached by a Scope compares equal to an existing context");
+        w.ids.push_back(s);
+        int id = (int)w.ids.size() - 1;
+        w.model.push_back(id);
+        w.scopes.push_back({std::move(sc), id});
+      } else if (op < 5 + nt) {  // ~Token (newest token of that identity)
+        int id = tid[op - 5];
+        size_t j = 0;
+        for (size_t q = w.toks.size(); q > 0; --q) if (w.toks[q - 1].id == id) { j = q - 1; break; }
+        c.stage("~Token");
+        hist += vf::sfmt(" ~Token(%s)", w.ids[id].name.c_str());
+        w.toks.erase(w.toks.begin() + j);
+        w.model_detach(id);
+      } else {  // Scope pop (any live scope)
+        int j = op - 5 - nt;
+        c.stage("~Scope");
+        int id = w.scopes[j].id;
+        hist += vf::sfmt(" Scope-(s%d%s)", j, w.ids[id].null_span ? ":null" : "");
+        w.scopes.erase(w.scopes.begin() + j);
+        w.model_detach(id);
+      }
+      check_current(c, w, hist);
+      c.state(vf::sfmt("spc|%d|", depth - d - 1) + w.canon());
+    }
+    c.outcome("spc|" + w.canon());
+    if (hist.find("null") != std::string::npos || hist.find("(X)") != std::string::npos) c.sample("runtime stack, special frames:" + hist + " => " + w.canon());
+    c.stage("unwind");
+    while (!w.scopes.empty() || !w.toks.empty()) {
+      if (!w.toks.empty()) { int id = w.toks.back().id; w.toks.pop_back(); w.model_detach(id); }
+      else { int id = w.scopes.back().id; w.scopes.pop_back(); w.model_detach(id); }
+      check_current(c, w, hist + " ...unwind");
+    }
+    c.check(w.model.empty() && real_stack().size_ == 0, "C10:frames-left-after-all-tokens-died",
+            vf::sfmt("after%s and destruction of every token and scope %zu frames remain attached", hist.c_str(), real_stack().size_));
+  }
+}
+
+// ==================================================================================================
+// part 5: a custom RuntimeContextStorage
+// ==================================================================================================
+// The statement's stack discipline is a property of the DEFAULT storage.  For a storage installed with
+// SetRuntimeContextStorage the only demand is delegation: RuntimeContext::GetCurrent / Attach / Detach, Token::~Token,
+// trace::Scope, Tracer::GetCurrentSpan and the RuntimeContext::SetValue / GetValue helpers act through the installed
+// storage, hand its answers back unchanged, and leave the default thread-local stack alone.  The harness storage is
+// deliberately NOT a stack (Detach removes only the most recent frame equal to the token, nothing above it), so an
+// implementation that kept using the default storage, or that re-implemented the unwinding itself, answers differently.
+class RecordingStorage : public context::RuntimeContextStorage {
+ public:
+  std::vector<Context> frames;
+  std::string log;                         // one letter per call: G, A, D
+  context::Token *last_created = nullptr;  // token handed out by the last Attach
+  Context last_attached;
+  context::Token *last_detached = nullptr;
+  bool last_detach_result = false;
+  Context peek() const { return frames.empty() ? Context() : frames.back(); }
+
+  Context GetCurrent() noexcept override { log += 'G'; return peek(); }
+  nostd::unique_ptr<context::Token> Attach(const Context &cx) noexcept override {
+    log += 'A';
+    frames.push_back(cx);
+    last_attached = cx;
+    nostd::unique_ptr<context::Token> t = CreateToken(cx);
+    last_created = t.get();
+    return t;
+  }
+  bool Detach(context::Token &t) noexcept override {
+    log += 'D';
+    last_detached = &t;
+    last_detach_result = false;
+    for (size_t pos = frames.size(); pos > 0; --pos)
+      if (t == frames[pos - 1]) { frames.erase(frames.begin() + (long)(pos - 1)); last_detach_result = true; break; }
+    return last_detach_result;
+  }
+};
+
+nostd::shared_ptr<context::RuntimeContextStorage> &default_storage() {
+  static nostd::shared_ptr<context::RuntimeContextStorage> keep = RuntimeContext::GetStorage();  // captured before any custom storage is installed
+  return keep;
+}
+struct RestoreDefaultStorage {
+  ~RestoreDefaultStorage() { RuntimeContext::SetRuntimeContextStorage(default_storage()); }
+};
+
+void run_custom_storage(vf::Ctx &c) {
+  const int depth = atoi(c.opt().get("custom-depth", c.thorough() ? "7" : "5").c_str());
+  reset_real_stack();
+  default_storage();
+  RestoreDefaultStorage restore;  // declared first: runs after every token / scope of this execution is gone
+  RecordingStorage *rec = new RecordingStorage();
+  nostd::shared_ptr<context::RuntimeContextStorage> custom(rec);
+  c.stage("SetRuntimeContextStorage");
+  RuntimeContext::SetRuntimeContextStorage(custom);
+  c.check(RuntimeContext::GetConstRuntimeContextStorage().get() == rec, "C10:custom-storage:not-installed", "GetConstRuntimeContextStorage() does not return the storage given to SetRuntimeContextStorage");
+  Context A("k", ContextValue(int64_t(1))), B("k", ContextValue(int64_t(2)));
+  const Context *fixed[2] = {&A, &B};
+  struct Tok { nostd::unique_ptr<context::Token> tok; std::string name; };
+  struct Scp { std::unique_ptr<trace::Scope> scope; const trace::Span *span; nostd::shared_ptr<trace::Span> owner; context::Token *token; };
+  std::vector<Tok> toks;
+  std::vector<Scp> scopes;
+  std::string hist;
+  int nspans = 0;
+  // after every operation: what RuntimeContext answers is what the storage holds, the default stack is untouched
+  auto observe = [&]() {
+    c.stage("custom:observe");
+    Context top = rec->peek();
+    rec->log.clear();
+    Context cur = RuntimeContext::GetCurrent();
+    c.check(rec->log == "G", "C10:custom-storage:getcurrent-not-delegated", vf::sfmt("after%s: RuntimeContext::GetCurrent() made the calls '%s' on the installed storage (expected one GetCurrent)", hist.c_str(), rec->log.c_str()));
+    c.check(cur == top, "C10:custom-storage:getcurrent-not-delegated", vf::sfmt("after%s: RuntimeContext::GetCurrent() is not the context the installed storage returned", hist.c_str()));
+    ContextValue want_k = top.GetValue("k"), got_k = RuntimeContext::GetValue("k");
+    c.check(show(want_k) == show(got_k), "C10:custom-storage:getvalue-not-delegated", vf::sfmt("after%s: RuntimeContext::GetValue('k') = %s, the installed storage's current context has %s", hist.c_str(), show(got_k).c_str(), show(want_k).c_str()));
+    Context derived = RuntimeContext::SetValue("k2", ContextValue(int64_t(7)));
+    c.check(show(derived.GetValue("k")) == show(want_k) && show(derived.GetValue("k2")) == "i64:7", "C10:custom-storage:setvalue-not-delegated",
+            vf::sfmt("after%s: RuntimeContext::SetValue('k2',7) did not derive from the installed storage's current context", hist.c_str()));
+    ContextValue want_s = top.GetValue(trace::kSpanKey);
+    nostd::shared_ptr<trace::Span> sp = trace::Tracer::GetCurrentSpan();
+    c.check(bool(sp), "C10:getcurrentspan-null", "GetCurrentSpan() returned a null pointer");
+    if (want_s.index() == 5)
+      c.check(sp.get() == nostd::get<nostd::shared_ptr<trace::Span>>(want_s).get(), "C10:custom-storage:getcurrentspan-not-delegated", vf::sfmt("after%s: GetCurrentSpan() is not the active span of the installed storage's current context", hist.c_str()));
+    else
+      c.check(!sp->GetContext().IsValid(), "C10:custom-storage:getcurrentspan-not-delegated", vf::sfmt("after%s: GetCurrentSpan() is a valid span although the installed storage's current context has none", hist.c_str()));
+    c.check(rec->log.find_first_of("AD") == std::string::npos, "C10:custom-storage:query-modifies", vf::sfmt("after%s: the query helpers attached / detached on the installed storage (calls '%s')", hist.c_str(), rec->log.c_str()));
+    auto &st = real_stack();
+    c.check(st.size_ == 0, "C10:custom-storage:default-stack-used", vf::sfmt("after%s: %zu frames were pushed on the default thread-local stack while a custom storage is installed", hist.c_str(), st.size_));
+  };
+  auto canon = [&]() {
+    std::string o = "[";
+    for (auto &f : rec->frames) {
+      ContextValue sv = f.GetValue(trace::kSpanKey);
+      o += show(f.GetValue("k")) + (sv.index() == 5 ? "s " : " ");
+    }
+    o += "] tok{";
+    for (auto &t : toks) o += t.name + ",";
+    o += vf::sfmt("} scopes=%zu", scopes.size());
+    return o;
+  };
+  observe();
+  for (int d = 0; d < depth; ++d) {
+    int nt = (int)toks.size(), ns = (int)scopes.size();
+    int op = c.pick("op", 3 + (nt ? 3 : 0) + (ns ? 1 : 0));
+    c.step();
+    rec->log.clear();
+    if (op < 2) {
+      c.stage("custom:Attach");
+      hist += op == 0 ? " Attach(A)" : " Attach(B)";
+      size_t before = rec->frames.size();
+      nostd::unique_ptr<context::Token> t = RuntimeContext::Attach(*fixed[op]);
+      c.check(rec->log == "A" && rec->frames.size() == before + 1 && rec->last_attached == *fixed[op], "C10:custom-storage:attach-not-delegated",
+              vf::sfmt("after%s: RuntimeContext::Attach made the calls '%s' on the installed storage (expected one Attach with the given context)", hist.c_str(), rec->log.c_str()));
+      c.check(t.get() == rec->last_created, "C10:custom-storage:attach-not-delegated", vf::sfmt("after%s: RuntimeContext::Attach did not return the token the installed storage created", hist.c_str()));
+      toks.push_back({std::move(t), op == 0 ? "A" : "B"});
+    } else if (op == 2) {
+      c.stage("custom:Scope");
+      hist += " Scope+";
+      Context parent = rec->peek();
+      size_t before = rec->frames.size();
+      Scp s;
+      s.owner = make_span(nspans++);
+      s.span = s.owner.get();
+      s.scope.reset(new trace::Scope(s.owner));
+      size_t attaches = (size_t)std::count(rec->log.begin(), rec->log.end(), 'A');
+      c.check(attaches == 1 && rec->frames.size() == before + 1 && rec->log.find('D') == std::string::npos, "C10:custom-storage:scope-not-delegated",
+              vf::sfmt("after%s: constructing a Scope made the calls '%s' on the installed storage (expected one Attach)", hist.c_str(), rec->log.c_str()));
+      ContextValue sv = rec->last_attached.GetValue(trace::kSpanKey);
+      c.check(sv.index() == 5 && nostd::get<nostd::shared_ptr<trace::Span>>(sv).get() == s.span && show(rec->last_attached.GetValue("k")) == show(parent.GetValue("k")), "C10:custom-storage:scope-context",
+              vf::sfmt("after%s: the context a Scope attached to the installed storage does not bind the span on top of the storage's current context", hist.c_str()));
+      s.token = s.scope->token_.get();
+      c.check(s.token == rec->last_created, "C10:custom-storage:scope-not-delegated", vf::sfmt("after%s: the Scope does not hold the token the installed storage created", hist.c_str()));
+      scopes.push_back(std::move(s));
+    } else if (nt && op < 6) {
+      size_t j = op == 3 ? toks.size() - 1 : 0;  // 3: Detach(newest token), token kept; 4: ~Token(oldest); 5: ~Token(newest)
+      if (op == 3) {
+        c.stage("custom:Detach");
+        hist += " Detach(newest token)";
+        bool got = RuntimeContext::Detach(*toks[j].tok);
+        c.check(rec->log == "D" && rec->last_detached == toks[j].tok.get(), "C10:custom-storage:detach-not-delegated",
+                vf::sfmt("after%s: RuntimeContext::Detach made the calls '%s' on the installed storage (expected one Detach with the given token)", hist.c_str(), rec->log.c_str()));
+        c.check(got == rec->last_detach_result, "C10:custom-storage:detach-result", vf::sfmt("after%s: RuntimeContext::Detach returned %d, the installed storage returned %d", hist.c_str(), int(got), int(rec->last_detach_result)));
+      } else {
+        if (op == 5) j = toks.size() - 1;
+        c.stage("custom:~Token");
+        hist += op == 4 ? " ~Token(oldest)" : " ~Token(newest)";
+        context::Token *addr = toks[j].tok.get();
+        toks.erase(toks.begin() + (long)j);
+        c.check(rec->log == "D" && rec->last_detached == addr, "C10:custom-storage:token-destructor-not-delegated",
+                vf::sfmt("after%s: destroying a token made the calls '%s' on the installed storage (expected one Detach with that token)", hist.c_str(), rec->log.c_str()));
+      }
+    } else {
+      c.stage("custom:~Scope");
+      hist += " Scope-(oldest)";
+      context::Token *addr = scopes[0].token;
+      scopes.erase(scopes.begin());
+      c.check(rec->log == "D" && rec->last_detached == addr, "C10:custom-storage:scope-destructor-not-delegated",
+              vf::sfmt("after%s: destroying a Scope made the calls '%s' on the installed storage (expected one Detach with the Scope's token)", hist.c_str(), rec->log.c_str()));
+    }
+    observe();
+    c.state(vf::sfmt("cst|%d|", depth - d - 1) + canon());
+  }
+  std::string fin = canon();
+  c.stage("custom:unwind");
+  scopes.clear();
+  toks.clear();
+  c.check(real_stack().size_ == 0, "C10:custom-storage:default-stack-used", "frames on the default thread-local stack after a run on a custom storage");
+  // back to the default storage: it works as before (one attach / detach)
+  c.stage("custom:restore");
+  RuntimeContext::SetRuntimeContextStorage(default_storage());
+  rec->log.clear();
+  {
+    nostd::unique_ptr<context::Token> t = RuntimeContext::Attach(A);
+    c.check(RuntimeContext::GetCurrent() == A && real_stack().size_ == 1 && rec->log.empty(), "C10:custom-storage:restore-default", "after re-installing the default storage an Attach did not reach the thread-local stack");
+  }
+  c.check(RuntimeContext::GetCurrent() == Context() && real_stack().size_ == 0 && rec->log.empty(), "C10:custom-storage:restore-default", "after re-installing the default storage the token's destruction did not pop the thread-local stack");
+  c.outcome("cst|" + fin);
+  c.sample("custom storage (not a stack):" + hist + " => " + fin + "; every call reached the installed storage, the default stack stayed empty");
+}
+
 void setup(vf::Options &o) {
   o.split_depth = 3;
   o.deadline_s = o.thorough ? 900 : 100;
@@ -685,11 +1005,15 @@ void setup(vf::Options &o) {
 void run(vf::Ctx &c) {
   // --part=N (development aid) runs a single part; registered tiers enumerate all four
   const std::string only = c.opt().get("part");
-  switch (only.empty() ? c.pick("part", 4) : atoi(only.c_str())) {
+  // an execution that ended inside part 5 has already re-installed the default storage (RestoreDefaultStorage)
+  default_storage();
+  switch (only.empty() ? c.pick("part", 6) : atoi(only.c_str())) {
     case 0: run_family(c); break;
     case 1: run_stack(c); break;
+    case 2: run_threads(c); break;
     case 3: run_deep(c); break;
-    default: run_threads(c); break;
+    case 4: run_special(c); break;
+    default: run_custom_storage(c); break;
   }
 }
 
